@@ -76,7 +76,9 @@ def one_history(ctx, src):
                 ev = impl.mk_evaluator(cfg, groups=groups, global_metrics=gm, save_group_times=sgt)
                 evs.append(ev)
                 mops.append(["newEvaluator", cfg["eval_metrics"], gm, sgt, k])
-                keys0.append(None)
+                # what an evaluator of this configuration advertises before any use: asked of a twin that is never used, so that
+                # the evaluator under test is first asked only after it has evaluated something
+                keys0.append(list(impl.mk_evaluator(cfg, groups=groups, global_metrics=gm, save_group_times=sgt).resulting_metric_keys))
                 yaml0.append(snapshot_config(ev, d, k))
         nontriv = False
         used_after = set()
@@ -168,11 +170,9 @@ def one_history(ctx, src):
             for k, ev in enumerate(evs):
                 with quiet():
                     ks = list(ev.resulting_metric_keys)
-                if keys0[k] is None:
-                    keys0[k] = ks
                 inp = {"specs": [[c, g, m, s] for c, g, m, s in specs], "ops": log, "src": src}
                 if ks != keys0[k]:
-                    ctx.violation(f"resulting_metric_keys of evaluator {k} changed through use (len {len(keys0[k])} -> {len(ks)})", inp,
+                    ctx.violation(f"resulting_metric_keys of evaluator {k} differ from those of an unused evaluator of the same configuration (len {len(keys0[k])} -> {len(ks)})", inp,
                                   impl={"before": keys0[k], "after": ks}, key={"kind": "keys-changed"})
                     keys0[k] = ks
                 y = snapshot_config(ev, d, k)
@@ -317,7 +317,7 @@ def replay(ctx, rec):
     os.makedirs(d, exist_ok=True)
     with quiet():
         evs = [impl.mk_evaluator(c, groups=g, global_metrics=m, save_group_times=s) for c, g, m, s in i["specs"]]
-        keys0 = [list(ev.resulting_metric_keys) for ev in evs]
+        keys0 = [list(impl.mk_evaluator(c, groups=g, global_metrics=m, save_group_times=s).resulting_metric_keys) for c, g, m, s in i["specs"]]
     yaml0 = [None for _ in evs]
     ctx.case(i, True)
     for o in i["ops"]:
